@@ -23,7 +23,7 @@ def _ob(tag, chk, state, kind, nv=1, ctxf=0, level=0, nargs=0, force10=False, ex
         key += "-" + e.lower().replace("with_", "").replace("newtitle=", "t").replace("'", "")
     return Ob(key, "parse_step.c", defs, unwind=5,
               unwindset=["main.0:17", "cfg_getopt_leaf.0:17", "ref_lookup.0:17", "cfg_getopt_secidx.0:2", "v_strndup8.0:9",
-                         "cfg_init_defaults.2:4", "cfg_dupopt_array.0:4", "cfg_dupopt_array.1:4"],
+                         "cfg_init_defaults.2:4", "cfg_dupopt_array.0:4", "cfg_dupopt_array.1:4", "v_free.0:9", "times_freed.0:9"],
               checks=checks, family="parsestep", must_reach=("post checked",), timeout=timeout,
               params={"parser_state": state, "option_kind": kind, "existing_values": nv, "context_flags": ctxf, "level": level,
                       "collected_args": nargs, "inside_skipped_section": force10, "extras": list(extra)})
